@@ -437,6 +437,9 @@ pub fn encode_with_dist_header_multi(terms: &[&OwnedTerm]) -> Result<Vec<u8>, En
     if atom_set.is_empty() {
         let mut buf = BytesMut::new();
         buf.put_u8(VERSION);
+        buf.put_u8(DIST_HEADER);
+        // NumberOfAtomCacheRefs = 0: no flags and no references follow
+        buf.put_u8(0);
         for term in terms {
             encode_term(&mut buf, term)?;
         }
